@@ -97,6 +97,12 @@ func (s stakeTx) Validate(ctx *action.Context, tx action.SignedTx) (bool, error)
 		return false, action.ErrInvalidPubkey
 	}
 
+	// a validator's address is the address of its consensus key: a stake that announces another key
+	// (e.g. the key of an existing validator) would create two records sharing one Tendermint key
+	if h, _ := st.ValidatorPubKey.GetHandler(); !h.Address().Equal(st.ValidatorAddress) {
+		return false, action.ErrInvalidPubkey
+	}
+
 	coin := st.Stake.ToCoinWithBase(ctx.Currencies)
 	if !coin.IsValid() {
 		return false, errors.Wrap(action.ErrInvalidAmount, coin.String())
